@@ -10,113 +10,12 @@ import (
 	"gopkg.in/yaml.v3"
 
 	"verif/doc"
+	"verif/gen"
+	"verif/refmodel"
 	"verif/run"
 )
 
 func init() { register("C17", checkC17) }
-
-const c17NameChars = "abcdefghijklmnopqrstuvwxyzABCDEFGHIJKLMNOPQRSTUVWXYZ0123456789._-"
-
-func c17Name(r *rand.Rand) string {
-	n := 1 + r.IntN(10)
-	var b strings.Builder
-	for i := 0; i < n; i++ {
-		ch := c17NameChars[r.IntN(len(c17NameChars))]
-		if i == 0 && ch == '.' {
-			ch = 'a'
-		}
-		b.WriteByte(ch)
-	}
-	return b.String()
-}
-
-// c17Ref draws a git-legal ref over [A-Za-z0-9._/-] without empty or
-// dot-only path components.
-func c17Ref(r *rand.Rand) string {
-	comps := 1 + r.IntN(3)
-	parts := make([]string, comps)
-	for i := range parts {
-		for {
-			p := c17Name(r)
-			if strings.Trim(p, ".") != "" {
-				parts[i] = p
-				break
-			}
-		}
-	}
-	pool := []string{"v1.2.3", "main", "master", "v4", "feature/x", "1.0", "release-2", "a_b", "0", "v1.0.0-beta.1"}
-	if r.IntN(2) == 0 {
-		return pool[r.IntN(len(pool))]
-	}
-	return strings.Join(parts, "/")
-}
-
-// c17Source builds a source from a documented form together with its
-// expected canonical form.
-func c17Source(r *rand.Rand) (src, want, form string) {
-	withRef := func(s string) (string, string) {
-		if r.IntN(3) != 0 {
-			ref := c17Ref(r)
-			return s + "#" + ref, "#" + ref
-		}
-		return s, ""
-	}
-	switch r.IntN(12) {
-	case 0, 1:
-		name := c17Name(r)
-		s, ref := withRef(name)
-		return s, "github.com/buildkite-plugins/" + name + "-buildkite-plugin" + ref, "name"
-	case 2, 3:
-		org, name := c17Name(r), c17Name(r)
-		s, ref := withRef(org + "/" + name)
-		return s, "github.com/" + org + "/" + name + "-buildkite-plugin" + ref, "org/name"
-	case 4:
-		lead := []string{"/", "./", "../", ".", "\\", "\\\\server\\share\\", "/abs/path/", "./a/b/", ".hidden/"}[r.IntN(9)]
-		s, _ := withRef(lead + c17Name(r))
-		return s, s, "path"
-	case 5:
-		scheme := []string{"https", "http", "ssh", "git", "file", "git+ssh"}[r.IntN(6)]
-		host := []string{"github.com", "gitlab.example.com:8443", "git@bitbucket.org", "", "user:pw@host"}[r.IntN(5)]
-		p := c17Name(r)
-		for k := r.IntN(3); k > 0; k-- {
-			p += "/" + c17Name(r)
-		}
-		if r.IntN(2) == 0 {
-			p += ".git"
-		}
-		s, _ := withRef(scheme + "://" + host + "/" + p)
-		return s, s, "scheme-url"
-	case 6:
-		user := []string{"git@", "", "deploy@"}[r.IntN(3)]
-		host := []string{"github.com", "host.xz", "10.0.0.1"}[r.IntN(3)]
-		s, _ := withRef(user + host + ":" + c17Name(r) + "/" + c17Name(r) + ".git")
-		if user == "" && host == "10.0.0.1" {
-			// "10.0.0.1:path" does not parse as a URL and is not a scheme either; still left as written
-		}
-		return s, s, "scp-style"
-	case 7:
-		drive := string(rune('A' + r.IntN(26)))
-		if r.IntN(2) == 0 {
-			drive = strings.ToLower(drive)
-		}
-		sep := []string{"\\", "/"}[r.IntN(2)]
-		s, _ := withRef(drive + ":" + sep + c17Name(r) + sep + c17Name(r))
-		return s, s, "windows-drive"
-	case 8, 9:
-		host := []string{"github.com", "gitlab.com", "bitbucket.org", "example.com", c17Name(r)}[r.IntN(5)]
-		p := host
-		for k := 2 + r.IntN(3); k > 0; k-- {
-			p += "/" + c17Name(r)
-		}
-		s, _ := withRef(p)
-		return s, s, "three-or-more-segments"
-	default:
-		// already canonical
-		org, name := c17Name(r), c17Name(r)
-		s, _ := withRef("github.com/" + org + "/" + name + "-buildkite-plugin")
-		return s, s, "canonical"
-	}
-}
 
 // c17RefInProperty reports whether the part after '#' (if any) is a ref
 // inside the property: no empty or dot-only path component, no second '#'.
@@ -167,7 +66,7 @@ func checkC17(c *run.Ctx) {
 	n := c.N(1000000, 20000000)
 	c.Phase("forms", func() {
 		c.Parallel("forms", n, func(i int, r *rand.Rand) {
-			src, want, form := c17Source(r)
+			src, want, form := gen.PluginSource(r)
 			p := &pipeline.Plugin{Source: src}
 			got := p.FullSource()
 			c.Eval(1)
@@ -176,6 +75,10 @@ func checkC17(c *run.Ctx) {
 				c.Feature(form, strings.Contains(src, "#"), len(strings.Split(src, "/")))
 			}
 			id := run.CaseID("forms", i)
+			if m := refmodel.PluginCanonical(src); m != want {
+				c.Infra("harness rule function disagrees with the by-construction expectation for %q: %q vs %q", src, m, want)
+				return
+			}
 			if got != want {
 				c.Violation(id, map[string]any{"what": fmt.Sprintf("FullSource(%q) = %q, rule model (%s) says %q", src, got, form, want)})
 				return
